@@ -74,7 +74,7 @@ def addr_origin(ctx):
     R.check('self.le_connections.get(sender_address)' in norm(oc), rule, f'{CTRL}.on_ll_control_pdu | lookup', 'connection looked up by the sender address', 'LL control lookup changed', p.loc(oc))
     # find_le_controller matches the destination by the receiver's own address for that connection
     fl = p.find(f'{LINK}.find_le_controller')
-    R.check(fl is not None and 'connection.self_address == address' in norm(fl), rule, f'{LINK}.find_le_controller', 'destination controller = the one owning a connection whose self_address is the destination', 'destination lookup changed', p.loc(fl) if fl else '')
+    R.check(fl is not None and 'address == connection.self_address' in norm(fl), rule, f'{LINK}.find_le_controller', 'destination controller = the one owning a connection whose self_address is the destination', 'destination lookup changed', p.loc(fl) if fl else '')
     # delivery goes only to the found controller, in order
     for fn, what in ((sa, 'on_link_acl_data'), (p.find(f'{LINK}.send_ll_control_pdu'), 'on_ll_control_pdu'), (p.find(f'{LINK}.send_lmp_packet'), 'on_lmp_packet')):
         if fn is None:
